@@ -30,6 +30,8 @@ Judge(e) ==
     [] e.ev = "Frames" -> Cl(e.panic, "C20.recvMsgPanics")
                           \cup Cl(~e.panic /\ (e.err \/ e.got # e.want), "C20.readBackDiffersUnderFragmentation")
                           \cup Cl(\E k \in DOMAIN e.recheck : ~e.recheck[k], "C20.decodedPacketAliasesReceiveBuffer")
+    \* several streams of one process receiving concurrently read back their own messages
+    [] e.ev = "Concurrent" -> Cl(e.mismatches > 0, "C20.concurrentStreamsCorruptEachOther")
     [] OTHER -> {"HARNESS.unknownEvent"}
 
 Init == l = 1 /\ failed = <<>>
